@@ -28,6 +28,9 @@ AP = "ekobox.apply"
 NX = 2
 
 
+MU20 = dag.power(dag.sym("mu0"), 2)
+
+
 class MockPdf(Opaque):
     def __init__(self, present):
         self.present = set(present)
@@ -46,15 +49,23 @@ class MockCard(Opaque):
 
 
 class MockEko(Opaque):
+    _real = "eko.io.struct.EKO"  # members not set here are the real archive's properties
+
     def __init__(self, src, ops, qed):
         xg = Obj(src.cls("eko.interpolation.XGrid"))
         xs = [dag.sym(f"x{k}") for k in range(NX)]
         xg.attrs.update(raw=Arr.from_nested(xs), grid=Arr.from_nested(xs), log=True, tag="op")
         self.xgrid = xg
-        self.mu20 = dag.sym("mu20")
+        # the initial point as the archive offers it: squared in the metadata / mu20, as (mu0, nf0) in the operator card
+        self.mu20 = MU20
+        self.metadata = MockCard()
+        self.metadata.origin = (MU20, 4)
         self.theory_card = MockCard()
         self.theory_card.order = (1, 1 if qed else 0)
         self.operator_card = MockCard()
+        self.operator_card._real = "eko.io.runcards.OperatorCard"
+        self.operator_card.init = (dag.sym("mu0"), 4)
+        self.operator_card.mu20 = MU20
         self.operator_card.configs = MockCard()
         self.operator_card.configs.interpolation_polynomial_degree = dag.sym("deg")
         self._ops = ops
@@ -121,7 +132,7 @@ def run(chk):
             Rm = None
             labels = pids
         # input f[b][k]
-        f = [[dag.div(dag.fn("xf", dag.const(p), dag.sym(f"x{k}"), dag.sym("mu20")), dag.sym(f"x{k}")) if p in present else dag.const(0)
+        f = [[dag.div(dag.fn("xf", dag.const(p), dag.sym(f"x{k}"), MU20), dag.sym(f"x{k}")) if p in present else dag.const(0)
               for k in range(NX)] for p in pids]
         for (ep, o), res, kind in [(x, pdfs, "operator") for x in ops.items()] + [(x, errs, "error") for x in ops.items()]:
             T = o.attrs[kind]
@@ -161,7 +172,7 @@ def run(chk):
                        how="PE + PIT F_p")
         # every present flavour asked exactly once per grid point at the initial scale
         want_calls = {(p, k) for p in present for k in range(NX)}
-        got_calls = {(p, int(str(x)[1:])) for p, x, q in pdf.calls if q is dag.sym("mu20") and str(x).startswith("x")}
+        got_calls = {(p, int(str(x)[1:])) for p, x, q in pdf.calls if dag.tonode(q) is MU20 and str(x).startswith("x")}
         chk.decide(got_calls == want_calls and len(pdf.calls) == len(want_calls), "pdf-sampled-on-the-operator-grid", f"{AP}.apply_pdf_flavor",
                    f"{inst}: the PDF is sampled {len(pdf.calls)} times; required once per present flavour and grid point at mu0^2",
                    where=src.func(f"{AP}.apply_pdf_flavor").where, instance=inst)
